@@ -38,6 +38,10 @@ func (t *Dense) T(axes ...int) (err error) {
 
 		// cool beans. No funny reversals. We'd have to actually do transpose then
 		t.Transpose()
+		// the data has moved and t.AP has changed: the transform computed above is stale
+		if transform, axes, err = t.AP.T(axes...); err != nil {
+			return handleNoOp(err)
+		}
 	}
 
 	// swap out the old and the new
